@@ -203,7 +203,7 @@ func (encryptor *HashQuery) OnBind(ctx context.Context, parseResult *pg_query.Pa
 			continue
 		}
 		index := int(paramRef.GetNumber() - 1)
-		if index >= len(values) {
+		if index < 0 || index >= len(values) {
 			logrus.WithFields(logrus.Fields{"placeholder": paramRef.GetNumber(), "index": index, "values": len(values)}).
 				Warning("Invalid placeholder index")
 			return values, false, queryEncryptor.ErrInvalidPlaceholder
